@@ -128,6 +128,18 @@ ways; the choice made here is stated -- generators should stay away)
  B17 xsl:attribute name="xmlns" is rejected (recovery) even with a namespace
      attribute, as the sentence in 7.1.3 is unconditional.
  B18 generate-id(): 'id<doc>n<node>' -- only equality is meaningful.
+ B19 A whitespace-only text node that xml:space="preserve" keeps in a place
+     where the stylesheet grammar allows no text (inside xsl:choose,
+     xsl:apply-templates, xsl:call-template, xsl:attribute-set, an empty
+     instruction, in front of xsl:param / xsl:sort): XSLTUnsupported (an error
+     by the letter, ignored by most processors).
+ B20 Result tree fragments: a variable reference in a position that requires
+     a node-set ('/', '//', '[]', '|', count() sum() name() local-name()
+     namespace-uri(), arguments of the EXSLT set/math functions, select of
+     xsl:for-each / xsl:apply-templates) is an XSLTDynamicError when the value
+     is a fragment (11.1); the check is made when the reference is evaluated,
+     a processor may make it earlier or not at all.  As the argument of
+     document() / key() / id() a fragment counts as a string.
  Plus everything listed in vf.ref_xpath (A1..A15), in particular attribute /
  namespace node order within one element.
 
@@ -757,9 +769,29 @@ def _xsl_attrs(el, allowed, required=()):
     return d
 
 
+def _preserved_ws(el, what):
+    # a whitespace-only text node kept by xml:space="preserve" where only
+    # elements (or nothing) may appear: an error by the letter, ignored by
+    # most processors
+    raise XSLTUnsupported('%s: whitespace text preserved by xml:space inside %s' % (_where(el), what))
+
+
 def _must_be_empty(el):
-    if _content(el):
+    for c in _content(el):
+        if c.kind == 'text' and _is_ws(c.value):
+            _preserved_ws(el, 'an empty element')
         raise XSLTStaticError('%s must be empty' % _where(el))
+
+
+def _element_content(el):
+    out = []
+    for c in _content(el):
+        if c.kind == 'text':
+            if _is_ws(c.value):
+                _preserved_ws(el, 'element-only content')
+            raise XSLTStaticError('%s: text is not allowed here' % _where(el))
+        out.append(c)
+    return out
 
 
 def _is_xsl(n, local=None):
@@ -2029,6 +2061,7 @@ class _Compiler(object):
                 raise XSLTStaticError('%s: priority=%r is not a number' % (_where(el), at['priority']))
             prio = float(ps)
         content = _content(el)
+        self._leading_ws(el, content, 'param')
         scope = frozenset()
         t.params = []
         i = 0
@@ -2059,6 +2092,17 @@ class _Compiler(object):
                 r.kinds, r.local = _prefilter(alt[1][0])
                 sheet.rules.setdefault(t.mode, []).append(r)
 
+    def _leading_ws(self, el, content, local):
+        seen_ws = False
+        for c in content:
+            if c.kind == 'text' and _is_ws(c.value):
+                seen_ws = True
+            elif _is_xsl(c, local):
+                if seen_ws:
+                    _preserved_ws(el, 'front of xsl:%s' % local)
+            else:
+                break
+
     def variable(self, el, scope, top=False):
         """xsl:variable / xsl:param / xsl:with-param -> (key, _Value)"""
         at = _xsl_attrs(el, ('name', 'select'), ('name',))
@@ -2085,7 +2129,7 @@ class _Compiler(object):
         a.attrs = []
         a.const_names = set()
         a.prec, a.order = d.merged.prec, d.order
-        for c in _content(el):
+        for c in _element_content(el):
             if not _is_xsl(c, 'attribute'):
                 raise XSLTStaticError('%s: only xsl:attribute is allowed' % _where(el))
             ins = self.i_attribute(c, frozenset())
@@ -2278,7 +2322,7 @@ class _Compiler(object):
         ins = _Choose()
         ins.whens = []
         ins.otherwise = None
-        for c in _content(el):
+        for c in _element_content(el):
             if _is_xsl(c, 'when') and ins.otherwise is None:
                 at = _xsl_attrs(c, ('test',), ('test',))
                 ins.whens.append((self.expr(at['test'], c, scope), self.body(_content(c), scope)))
@@ -2322,6 +2366,7 @@ class _Compiler(object):
         ins = _ForEach()
         ins.select = self.expr(at['select'], el, scope)
         content = _content(el)
+        self._leading_ws(el, content, 'sort')
         i = 0
         ins.sorts = []
         while i < len(content) and _is_xsl(content[i], 'sort'):
@@ -2337,7 +2382,7 @@ class _Compiler(object):
         ins.mode = self.qname(at['mode'], el, 'mode') if 'mode' in at else None
         ins.sorts = []
         wps = []
-        for c in _content(el):
+        for c in _element_content(el):
             if _is_xsl(c, 'sort'):
                 ins.sorts.append(self.sort(c, scope))
             elif _is_xsl(c, 'with-param'):
@@ -2358,7 +2403,7 @@ class _Compiler(object):
         ins.name = self.qname(at['name'], el, 'name')
         ins.template = None
         wps = []
-        for c in _content(el):
+        for c in _element_content(el):
             if _is_xsl(c, 'with-param'):
                 wps.append(c)
             else:
